@@ -97,6 +97,29 @@ def gen_cases(rng, tier):
                 h = ['t3', 'd%d' % how, 't10', 'u%d' % how, 't%d' % rng.choice([5, 40]), 'd%d' % code, 't300', 'u%d' % code, 't60']
                 cases.append({'id': 'c05-vrow-%d' % vj, 'cfg': cfg, 'hist': h, 'sub': 'ksim', 'tags': {'shape': 'virtual-key-with-the-same-index', 'key': kname}})
                 vj += 1
+    # two tap-holds pending on ONE key at the same time (switch with fallthrough, or multi): the one with the shorter timeout is
+    # decided first, the other one is still undecided then - keys pressed meanwhile stay buffered and its own release still decides it
+    tj = 0
+    for conc in (False, True):
+        for how in ('(switch () (tap-hold 0 %d a lctl) fallthrough () (tap-hold 0 %d b lsft) break)', '(switch () (tap-hold-press 0 %d a lctl) fallthrough () (tap-hold-release 0 %d b lsft) fallthrough () c break)'):
+            for H1, H2 in ((100, 300), (50, 120), (300, 100), (100, 100)):
+                lo, hi = min(H1, H2), max(H1, H2)
+                for rel in (lo // 2, lo + (hi - lo) // 2 if hi > lo else lo + 20, hi + 40):
+                    for other in (None, lo + 5):
+                        cfg = '(defcfg %s)\n(defsrc a s d)\n(deflayer l0 %s y 2)' % ('concurrent-tap-hold yes' if conc else '', how % (H1, H2))
+                        ev = [(3, 'p0,30'), (3 + rel, 'r0,30')]
+                        if other is not None:
+                            ev += [(3 + other, 'p0,31'), (3 + other + 20, 'r0,31')]
+                        ev.sort(key=lambda x: x[0])
+                        toks, now = [], 0
+                        for t, e in ev:
+                            if t > now:
+                                toks.append('t%d' % (t - now)); now = t
+                            toks.append(e)
+                        toks.append('t%d' % (hi + 200))
+                        cases.append({'id': 'c05-two-%d' % tj, 'cfg': cfg, 'hist': toks, 'sub': 'lsim',
+                                      'tags': {'shape': 'two-tap-holds-pending-on-one-key', 'conc': conc}})
+                        tj += 1
     # random configs of the profile incl. two tap-hold keys interleaved
     cases += lsim_cases(rng, 'c05', 100 if tier == 'quick' else 3000, 3, tag='c05-rand')
     return cases
